@@ -154,7 +154,7 @@ def handleEntry (seq kind name scn caller : String) (authorised base : Bool) (ex
     let m2 := if expect == "submit" && !diffEmpty then ["privileged_only"] else []
     let m3 := if rejected && !diffEmpty then ["rejected_no_change"] else []
     let m4 := if expect == "reject" && (!rejected || !diffEmpty) then ["precondition_enforced"] else []
-    d1 ++ d2 ++ d3 ++ ((m1 ++ m2 ++ m3 ++ m4).eraseDups.map fun m => s!"MON\t{seq}\t{m} ({changed})")
+    d1 ++ d2 ++ d3 ++ ((m1 ++ m2 ++ m3 ++ m4).eraseDups.map fun m => s!"MON\t{seq}\t{m}\t{kind} {name} {scn} caller={caller} outcome={outcome} changed=[{changed}]")
 
 /-- end of a run: what the regenerated tables list must have been driven -/
 def handleEnd (seq which : String) (driven : List String) : List String :=
